@@ -4,7 +4,7 @@ from ..facts import AST, VISITOR_CRATE, walk
 from ..engine import Rule
 from ..cfg import calls, callee_name, place_of, op_const
 from . import common as C
-from .mirflow import self_field_of
+from .mirflow import self_field_of, TRANSPARENT as MF_TRANSPARENT
 from .influence import flow_of
 from .state import access_index, is_visitor_body, root_path, first_field
 
@@ -111,11 +111,19 @@ def r10_1(ctx):
             else:
                 r.ob("%s is not written after construction" % name, True, "-", "%d access(es), none mutating (%s)" % (len(acc_outside_new), why))
         elif kind == "P2":
+            cells = _check_then_create_bodies(ctx, name, acc_outside_new)
             for a in acc_outside_new:
                 rp = root_path(a["body"])
+                if id(a["body"]) in cells and a["kind"] in ("store", "switch"):
+                    why_ok, why_bad = cells[id(a["body"])]
+                    r.ob("%s: %s of registry %s" % (rp, a["kind"], name), not why_bad, C.mloc(a["body"], a["node"]),
+                         ("test-empty-then-create: " + why_ok) if not why_bad else "not a lookup-or-create of `%s`: %s" % (name, why_bad))
+                    continue
                 key = "%s: %s of registry %s" % (rp, a["kind"] if a["kind"] != "call" else a["callee"].split("::")[-1], name)
                 if "VisitMut>::visit_mut_module" in rp or "VisitMut>::visit_mut_script" in rp:
                     r.ob(key, True, C.mloc(a["body"], a["node"]), "emission in the module method")
+                elif a["kind"] == "call" and id(a["body"]) in cells and not cells[id(a["body"])][1] and not a["mut"] and MF_TRANSPARENT.search(a["callee"]):
+                    r.ob(key, True, C.mloc(a["body"], a["node"]), "copy of the content inside the lookup-or-create")
                 elif a["kind"] == "call" and P2_LOOKUP_OR_CREATE.search(a["callee"]):
                     r.ob(key, True, C.mloc(a["body"], a["node"]), "lookup-or-create")
                 elif a["kind"] == "read":
@@ -152,6 +160,114 @@ def r10_1(ctx):
             else:
                 r.ob("%s only feeds identifier text" % name, True, "-", why)
     return r
+
+
+def _empty_variant(ctx, name):
+    """the variant the constructor puts in field `name`, when it is a variant without payload"""
+    for b in ctx.facts.mir:
+        if b["crate"] != VISITOR_CRATE or not b["path"].endswith("VueJsxTransformVisitor::<C>::new"):
+            continue
+        for blk in b["blocks"]:
+            for s in blk["stmts"]:
+                rv = s.get("rv") or {}
+                if s["k"] == "assign" and rv.get("rk") == "agg" and str(rv.get("adt") or "").endswith("VueJsxTransformVisitor") and name in (rv.get("fields") or []):
+                    op = rv["ops"][rv["fields"].index(name)]
+                    pl = place_of(op)
+                    if pl is None or pl.get("p"):
+                        return None
+                    defs = [x["rv"] for bl2 in b["blocks"] for x in bl2["stmts"] if x["k"] == "assign" and x["lhs"]["l"] == pl["l"] and not x["lhs"].get("p")]
+                    if len(defs) == 1 and defs[0].get("rk") == "agg" and defs[0].get("variant") and not defs[0].get("ops"):
+                        return defs[0]["variant"]
+    return None
+
+
+def _check_then_create_bodies(ctx, name, accesses):
+    """{id(body): (why it is a lookup-or-create, why it is not)} for every body outside the module methods that stores to the cell
+    `name` or branches on it. A hand-written `get_or_insert_with`: the only store is a whole-field store of a payload variant, reached
+    only through the arm of a test of the cell itself that finds the constructor's empty variant; what is stored is built without
+    the function's other parameters or any other mutable state; and the function returns either the stored value or the content."""
+    from .mirflow import TRANSPARENT
+    out = {}
+    empty = _empty_variant(ctx, name)
+    by_body = {}
+    for a in accesses:
+        rp = root_path(a["body"])
+        if "VisitMut>::visit_mut_module" in rp or "VisitMut>::visit_mut_script" in rp:
+            continue
+        if a["kind"] in ("store", "switch"):
+            by_body.setdefault(id(a["body"]), (a["body"], []))[1].append(a)
+    immut = {k for k, v in DISCIPLINE.items() if v[0] == "immutable"}
+    for bid, (mb, accs) in by_body.items():
+        stores = [a for a in accs if a["kind"] == "store"]
+        switches = [a for a in accs if a["kind"] == "switch"]
+        if not stores:
+            continue    # a branch on the content without the creating store: judged by the caller (content read)
+        bad = None
+        if empty is None:
+            bad = "the constructor does not start the cell in a payload-free variant"
+        g = C.cfg_of(ctx, mb)
+        fl = flow_of(ctx, mb)
+        # arms that find the cell empty
+        arms = []
+        for a in switches:
+            blk = mb["blocks"][a["bb"]]
+            t = blk["term"]
+            dl = place_of(t["discr"])
+            for st in blk["stmts"]:
+                if dl and st["k"] == "assign" and st["lhs"]["l"] == dl["l"] and st["rv"].get("rk") == "discr":
+                    vmap = {v[1]: v[0] for v in st["rv"].get("variants", [])}
+                    if empty in vmap and first_field(next(iter(self_field_of(fl.place_sources(st["rv"]["place"]))), "")) == name:
+                        listed = {val: tgt for val, tgt in t["targets"]}
+                        if vmap[empty] in listed:
+                            tgt = listed[vmap[empty]]
+                            if sum(1 for v2, t2 in t["targets"] if t2 == tgt) == 1 and t.get("otherwise") != tgt:
+                                arms.append(tgt)
+                        elif t.get("otherwise") is not None and len(listed) == len(vmap) - 1:
+                            arms.append(t["otherwise"])
+        # an arm counts only if nothing else leads into it (a guard that falls through to it does)
+        arms = [t for t in arms if set(g.pred[t]) <= {a["bb"] for a in switches}]
+        stored_src = set()
+        for a in stores:
+            if bad:
+                break
+            node = a["node"]
+            if a["path"].strip(".") != name:
+                bad = "a store into the content (%s)" % a["path"]
+            elif not any(g.dominates(t, a["bb"]) for t in arms):
+                bad = "the store is not confined to the arm of a test of the cell that finds it %s" % (empty,)
+            else:
+                rv = node["rv"]
+                if rv.get("rk") == "use" and place_of(rv["op"]) is not None and not place_of(rv["op"]).get("p"):
+                    ds = [x["rv"] for bl2 in mb["blocks"] for x in bl2["stmts"] if x["k"] == "assign" and x["lhs"]["l"] == place_of(rv["op"])["l"] and not x["lhs"].get("p")]
+                    rv = ds[0] if len(ds) == 1 else rv
+                if not (rv.get("rk") == "agg" and rv.get("variant") and rv.get("variant") != empty):
+                    bad = "what is stored is not a payload variant built on the spot"
+                    break
+                for o in rv.get("ops", []):
+                    for d in fl.op_deps(o):
+                        if d[0] == "param" and d[1] >= 2:
+                            bad = "the stored value depends on parameter %d of the function" % d[1]
+                        elif d[0] == "param" and d[1] == 1 and first_field(d[2]) not in immut:
+                            bad = "the stored value depends on visitor state (%s)" % d[2]
+                        elif d[0] == "upvar":
+                            bad = "the stored value depends on a captured %s" % d[1]
+                        elif d[0] == "call" and ((mb["crate"], d[1]) in ctx.facts.mir_by_path or (VISITOR_CRATE, d[1]) in ctx.facts.mir_by_path):
+                            bad = "the stored value comes from local function %s" % d[1]
+                    stored_src |= {x for x in fl.op_sources(o) if x[0] in ("call", "agg", "const")}
+        if not bad and mb["dk"] != "Closure":
+            # the result: the content of the cell, or what was stored
+            for x in fl.sources(0):
+                if x[0] == "param" and x[1] == 1 and {first_field(f) for f in self_field_of({x})} == {name}:
+                    continue
+                if x[0] == "call" and TRANSPARENT.search(x[1]):
+                    continue
+                if x in stored_src or x[0] in ("agg", "const"):
+                    continue
+                bad = "the function's result is neither the content of the cell nor what was just stored (%s)" % (x,)
+                break
+        out[bid] = ("the only store of `%s` sits on the %s arm of a test of the cell, stores a payload variant built from fresh values only, "
+                    "and the function returns the content or what it stored" % (name, empty), bad)
+    return out
 
 
 def _resolving_bodies(ctx):
